@@ -124,11 +124,16 @@ def _subst(v, env):
 
 
 def _result(G):
-    vals = [r['v'] for r in G.get('returns', []) if r.get('v') is not None]
+    """Result value of a function: its tail, or — with early returns — the alternatives `return`ed values + tail.  The guard
+    frames of each early return are kept next to the alternatives (`alt_guards`), so that a specialisation of the result
+    (vlib/special.py) can tell which alternative is taken."""
+    rets = [r for r in G.get('returns', []) if r.get('v') is not None]
     tail = G.get('tail')
-    if not vals:
+    if not rets:
         return tail
-    return {'k': 'alt', 'alts': vals + ([tail] if tail is not None else []), 'ty': (tail or {}).get('ty') if isinstance(tail, dict) else None}
+    return {'k': 'alt', 'alts': [r['v'] for r in rets] + ([tail] if tail is not None else []),
+            'alt_guards': [r.get('guard', []) for r in rets] + ([[]] if tail is not None else []),
+            'ty': (tail or {}).get('ty') if isinstance(tail, dict) else None}
 
 
 def view(ctx, f, depth=3, stop=(), _stack=(), force=()):
